@@ -156,13 +156,13 @@ func smtStringToGo(s string) (string, bool) {
 }
 
 type replayer struct {
-	o      *checkOpts
-	ob     *Obligation
-	vc     *VC
-	file   string // query file with get-value
-	values map[string]*sx
-	ok     bool
-	notes  []string
+	o           *checkOpts
+	ob          *Obligation
+	vc          *VC
+	file        string // query file with get-value
+	values      map[string]*sx
+	ok          bool
+	notes       []string
 	stringPrefs string // extra assertions: string inputs use printable ASCII
 }
 
